@@ -101,6 +101,47 @@ fn node_candidates(a: &Node, rng: &mut StdRng) -> Vec<(&'static str, Node)> {
         // head of the serialised json into the entity and keep a valid json object in the rest is
         // not possible either; the absorbing variant above is the boundary case
     }
+    // the signature binds the json column as stored: other spellings of the same value are other rows
+    if let Some(j) = &a._json {
+        if let Ok(serde_json::Value::Object(map)) = serde_json::from_str::<serde_json::Value>(j) {
+            let mut b = a.clone();
+            b._json = Some(format!(" {}", j));
+            out.push(("node/json-respelled/leading-whitespace", b));
+            let mut b = a.clone();
+            b._json = Some(j.replacen(':', " : ", 1));
+            out.push(("node/json-respelled/whitespace-inside", b));
+            if let Some((k, v)) = map.iter().next() {
+                // a duplicate key: parsers keep the last one, the storage engine reads the first one
+                let dup = format!("{{{}:\"shadow\",{}", serde_json::to_string(k).unwrap(), &j.trim_start()[1..]);
+                if serde_json::from_str::<serde_json::Value>(&dup).is_ok() {
+                    let mut b = a.clone();
+                    b._json = Some(dup);
+                    out.push(("node/json-respelled/duplicate-key", b));
+                }
+                let _ = v;
+            }
+            if map.len() >= 2 {
+                let mut items: Vec<(String, serde_json::Value)> = map.iter().map(|(k, v)| (k.clone(), v.clone())).collect();
+                items.reverse();
+                let text = format!("{{{}}}", items.iter().map(|(k, v)| format!("{}:{}", serde_json::to_string(k).unwrap(), v)).collect::<Vec<_>>().join(","));
+                if &text != j {
+                    let mut b = a.clone();
+                    b._json = Some(text);
+                    out.push(("node/json-respelled/key-order", b));
+                }
+            }
+            // an escaped spelling of the first letter found in a string
+            if let Some(pos) = j.find(|c: char| c.is_ascii_lowercase()) {
+                let c = j.as_bytes()[pos] as char;
+                let inside_string = j[..pos].matches('"').count() % 2 == 1;
+                if inside_string {
+                    let mut b = a.clone();
+                    b._json = Some(format!("{}\\u{:04x}{}", &j[..pos], c as u32, &j[pos + 1..]));
+                    out.push(("node/json-respelled/unicode-escape", b));
+                }
+            }
+        }
+    }
     // json | binary : binary = bytes of the serialised json
     if a._binary.is_none() {
         if let Some(j) = &a._json {
